@@ -931,6 +931,9 @@ def run(ctx):
         # a third of the owners are falsy objects (a HasTraits class defining __len__ -> 0 or __bool__ -> False)
         for kind, cases in groups.items():
             for c in cases:
+                if rnd.random() < 0.25:
+                    c["no_items"] = True        # List(..., items=False) etc.: validation does not depend on the items event
+                    ctx.count("decl:items=False")
                 if "falsy" not in c and kind != "default" and rnd.random() < 0.33:
                     c["falsy"] = rnd.choice(["len", "bool"])
                     ctx.count("owner:falsy-" + c["falsy"])
